@@ -111,6 +111,11 @@ def gen_rows(rng, n):
             o = [0.0, 0.0, 0.0]
         elif k < 0.58:
             o = [r0, 0.0, 0.0] if rng.random() < 0.5 else [0.0, -r0, 0.0]      # on the wire
+            kk = rng.random()
+            if kk < 0.3:
+                o[2] = rng.choice([-1, 1]) * r0 * 1e-17      # |z| < 1e-15 r0: still the on-wire mask (588c868)
+            elif kk < 0.5:
+                o[2] = rng.choice([-1, 1]) * r0 * 1e-13      # just outside the mask: general branch
         elif k < 0.64:
             d = 0.0
             o = _vec(rng) if rng.random() < 0.5 else [0.0, 0.0, rng.uniform(-1, 1)]
